@@ -874,18 +874,26 @@ class H2Stream:
 
             input_ = StreamInputs.SEND_INFORMATIONAL_HEADERS
 
+        # A header block that is refused below has not been sent, so the call
+        # has to leave the stream in the state it found it in.
+        previous_state = vars(self.state_machine).copy()
         events = self.state_machine.process_input(input_)
 
-        # Refuse trailers without END_STREAM before they are encoded: the
-        # encoder's state cannot be rolled back afterwards.
-        if self.state_machine.trailers_sent and not end_stream:
-            raise ProtocolError("Trailers must have END_STREAM set.")
+        try:
+            # Refuse trailers without END_STREAM before they are encoded: the
+            # encoder's state cannot be rolled back afterwards.
+            if self.state_machine.trailers_sent and not end_stream:
+                raise ProtocolError("Trailers must have END_STREAM set.")
 
-        hf = HeadersFrame(self.stream_id)
-        hdr_validation_flags = self._build_hdr_validation_flags(events)
-        frames = self._build_headers_frames(
-            headers, encoder, hf, hdr_validation_flags, first_frame_overhead
-        )
+            hf = HeadersFrame(self.stream_id)
+            hdr_validation_flags = self._build_hdr_validation_flags(events)
+            frames = self._build_headers_frames(
+                headers, encoder, hf, hdr_validation_flags,
+                first_frame_overhead
+            )
+        except ProtocolError:
+            vars(self.state_machine).update(previous_state)
+            raise
 
         if end_stream:
             # Not a bug: the END_STREAM flag is valid on the initial HEADERS
@@ -915,6 +923,9 @@ class H2Stream:
         # Because encoding headers makes an irreversible change to the header
         # compression context, we make the state transition *first*.
 
+        # As in send_headers, a refused header block leaves the stream as it
+        # was.
+        previous_state = vars(self.state_machine).copy()
         events = self.state_machine.process_input(
             StreamInputs.SEND_PUSH_PROMISE
         )
@@ -923,9 +934,13 @@ class H2Stream:
         ppf.promised_stream_id = related_stream_id
         hdr_validation_flags = self._build_hdr_validation_flags(events)
         # The promised stream ID takes four bytes of the first frame.
-        frames = self._build_headers_frames(
-            headers, encoder, ppf, hdr_validation_flags, 4
-        )
+        try:
+            frames = self._build_headers_frames(
+                headers, encoder, ppf, hdr_validation_flags, 4
+            )
+        except ProtocolError:
+            vars(self.state_machine).update(previous_state)
+            raise
 
         return frames
 
